@@ -81,6 +81,30 @@ impl MetaRec {
     }
 }
 
+/// Rewrites a valid new-format header page so that it belongs into `slot`: page id, slot field of the
+/// record and checksum.  (A file in which each header sits in the other slot is what an
+/// implementation with the opposite alternation rule produces; the pinned release puts the header
+/// of transaction N into slot (N + 1) % 2.)
+pub fn relocate_header(page: &mut [u8], slot: u64) {
+    page[0..8].copy_from_slice(&slot.to_le_bytes());
+    page[REC_OFF..REC_OFF + 4].copy_from_slice(&(slot as u32).to_le_bytes());
+    let m = MetaRec {
+        slot,
+        meta_page: slot as u32,
+        magic: u32_at(page, REC_OFF + 4).unwrap(),
+        version: u32_at(page, REC_OFF + 8).unwrap(),
+        pagesize: u64_at(page, REC_OFF + 16).unwrap(),
+        root_page: u64_at(page, REC_OFF + 24).unwrap(),
+        next_int: u64_at(page, REC_OFF + 32).unwrap(),
+        num_pages: u64_at(page, REC_OFF + 40).unwrap(),
+        freelist_page: u64_at(page, REC_OFF + 48).unwrap(),
+        tx_id: u64_at(page, REC_OFF + 56).unwrap(),
+        legacy: false,
+    };
+    let h = m.fnv();
+    page[REC_OFF + 64..REC_OFF + 72].copy_from_slice(&h.to_le_bytes());
+}
+
 /// Decodes the header record in `slot` (0 or 1).  `Ok` only if the page-type byte says header and
 /// the checksum (new format, else legacy format) matches.
 pub fn read_meta(buf: &[u8], pagesize: u64, slot: u64) -> Result<MetaRec, String> {
